@@ -3,6 +3,7 @@ package c09
 
 import (
 	"fmt"
+	"net/http/httptest"
 	"strings"
 	"testing"
 
@@ -56,6 +57,7 @@ func prop(t *rapid.T) {
 		t.Skip("no routes")
 	}
 	r := prog.Apply(w)
+	addNestRoutes(r)
 	reqs := chain.Requests(t, pm, 2)
 	// a history: every probe, some of them repeated, so that requests follow panics
 	n := rapid.IntRange(len(reqs), len(reqs)+4).Draw(t, "nreq")
@@ -134,6 +136,46 @@ func prop(t *rapid.T) {
 			lastCtx = st.Ctx
 		}
 	}
+	// the router stays fully usable: a request that issues a nested request (a handler calling ServeHTTP for an
+	// internal sub-request) behaves exactly as on a router that never saw a panic
+	if panicked && hook != nil {
+		w2 := chain.NewWorld()
+		twin := prog.Apply(w2)
+		addNestRoutes(twin)
+		if got, want := nestProbe(r), nestProbe(twin); got != want {
+			t.Fatalf("after contained panics a request with a nested sub-request observes\n   %s\non a router that never panicked\n   %s\nprogram:\n%sscripts:\n%s", got, want, prog, prog.Scripts())
+		}
+		ev.Class("nested-request-probe-after-panic")
+	}
+}
+
+// addNestRoutes registers an outer route whose handler serves an inner request through the same router.
+func addNestRoutes(r *rux.Router) {
+	r.GET("/zzinner/{id}", func(c *rux.Context) { c.WriteString("inner:" + c.Param("id")) })
+	r.GET("/zznest/{id}", func(c *rux.Context) {
+		before := fmt.Sprintf("id=%s path=%s", c.Param("id"), c.Req.URL.Path)
+		c.Set("mark", "outer")
+		irec := httptest.NewRecorder()
+		r.ServeHTTP(irec, httptest.NewRequest("GET", "/zzinner/in", nil))
+		mark, _ := c.Get("mark")
+		after := fmt.Sprintf("id=%s path=%s mark=%v aborted=%v", c.Param("id"), c.Req.URL.Path, mark, c.IsAborted())
+		c.WriteString("outer[" + before + "|" + after + "|inner=" + irec.Body.String() + "]")
+	})
+}
+
+func nestProbe(r *rux.Router) (out string) {
+	defer func() {
+		if v := recover(); v != nil {
+			out = fmt.Sprintf("panic: %v", v)
+		}
+	}()
+	var ss []string
+	for i := 0; i < 3; i++ {
+		rec := httptest.NewRecorder()
+		r.ServeHTTP(rec, httptest.NewRequest("GET", "/zznest/out", nil))
+		ss = append(ss, fmt.Sprintf("%d %s", rec.Code, rec.Body.String()))
+	}
+	return strings.Join(ss, " ; ")
 }
 
 func TestProp(t *testing.T) { rapid.Check(t, prop) }
